@@ -11,7 +11,7 @@ from sim.observe import observe, values_only
 
 ID = "C11"
 LEVEL = "exploration"
-TIERS = {"quick": {"runs": 12000, "budget_s": 70, "chunk": 100, "min_runs": 500},
+TIERS = {"quick": {"runs": 40000, "budget_s": 75, "chunk": 100, "min_runs": 500},
          "thorough": {"runs": 2000000, "budget_s": 1200, "chunk": 300, "min_runs": 10000}}
 RULE = ("case = seeded (fixed-size union definition: scalar, array, char-array, enum, pointer members, nested and anonymous structs "
         "to depth 3, nested unions; packed or aligned; optionally held inside a structure; initial content from parsing random "
